@@ -7,6 +7,7 @@ package flags
 import (
 	"fmt"
 	"reflect"
+	"sort"
 	"strconv"
 	"strings"
 	"time"
@@ -141,13 +142,14 @@ func convertToString(val reflect.Value, options multiTag) (string, error) {
 
 		return ret + "]", nil
 	case reflect.Map:
-		ret := "{"
+		type entry struct {
+			key  string
+			item string
+		}
 
-		for i, key := range val.MapKeys() {
-			if i != 0 {
-				ret += ", "
-			}
+		entries := make([]entry, 0, val.Len())
 
+		for _, key := range val.MapKeys() {
 			keyitem, err := convertToString(key, options)
 
 			if err != nil {
@@ -160,7 +162,22 @@ func convertToString(val reflect.Value, options multiTag) (string, error) {
 				return "", err
 			}
 
-			ret += keyitem + ":" + item
+			entries = append(entries, entry{keyitem, item})
+		}
+
+		// Map iteration order is random; render the entries sorted by key
+		sort.Slice(entries, func(i, j int) bool {
+			return entries[i].key < entries[j].key
+		})
+
+		ret := "{"
+
+		for i, e := range entries {
+			if i != 0 {
+				ret += ", "
+			}
+
+			ret += e.key + ":" + e.item
 		}
 
 		return ret + "}", nil
